@@ -276,29 +276,60 @@ Require Import JV.Model.LokyExec JV.Model.LokyDrive.
 Import ListNotations."""
 
 
-def macros(s, settled):
+RACY = ("after_send", "idle_unsettled", "startup_gen", "startup_reduce")
+MASKS = ["mask1", "mask2", "mask3", "mask4"]
+
+
+def variants_for(s, r):
+    """schedules of the model that the real run may have followed.  Kinds whose outcome is decided by a
+    genuine race (result pipe / next call's start-up vs the manager thread noticing the sentinel) get every
+    schedule in which the death is noticed: at once, during the call, after call 1, while call 2 starts,
+    after call 2, not within the scenario.  All of them satisfy C10 (at most one failing call, of the
+    worker-termination class); the deterministic model cannot choose between them, the OS scheduler does."""
+    kind = s["kind"]
+    if kind == "after_send":
+        return ["plain", "seen"] + MASKS
+    if kind == "idle_unsettled" or (kind == "idle_settled" and not r.get("noticed")):
+        return ["plain", "unsettled", "late"] + MASKS
+    if kind in ("startup_gen", "startup_reduce"):
+        return ["plain", "late"] + MASKS
+    return ["plain"]
+
+
+def macros(s, variant):
     n, nj = s["n_tasks"], s["n_jobs"]
     burst = min(n, 2 * nj)
     R = n + 8
     ok_call = ["MCall %d %d []" % (n, burst), "MRounds %d" % R]
-    m = (["MWithEnter"] if s["managed"] else []) + ok_call
+    kills = ["MKillIdle %d" % j for j in s["victims"]]
     kind = s["kind"]
+    m = (["MWithEnter"] if s["managed"] else []) + ok_call
+    if variant == "late":
+        # the death is only handled after call 1 returned: same as an idle death after call 1
+        return "show (drive %d %d [%s])" % (nj, 2 * common.NCPU + 1, "; ".join(m + ok_call + kills + ["MMgr 3"] + ok_call + ok_call))
+    if variant in MASKS:
+        m += ["MMask true"]
     if kind in TRAP:
-        tr = "; ".join("(%d, %s)" % (v, TRAP[kind]) for v in s["victims"])
+        trap = "TAfterSendSeen" if variant == "seen" else TRAP[kind]
+        tr = "; ".join("(%d, %s)" % (v, trap) for v in s["victims"])
         m += ["MCall %d %d [%s]" % (n, burst, tr), "MRounds %d" % R]
     elif kind in ("idle_settled", "idle_unsettled"):
-        m += ["MKillIdle %d" % j for j in s["victims"]] + (["MMgr 3"] if settled is True else []) + ok_call
+        m += kills + (["MMgr 3"] if variant == "plain" else []) + ok_call
     elif kind == "startup_gen":
-        m += ["MCall %d 0 []" % n] + ["MKillIdle %d" % j for j in s["victims"]] + ["MDispatch %d" % burst, "MRounds %d" % R]
+        m += ["MCall %d 0 []" % n] + kills + ["MDispatch %d" % burst, "MRounds %d" % R]
     elif kind == "startup_reduce":
-        m += ["MCall %d %d []" % (n, burst)] + ["MKillIdle %d" % j for j in s["victims"]] + ["MRounds %d" % R]
+        m += ["MCall %d %d []" % (n, burst)] + kills + ["MRounds %d" % R]
     else:
         m += ok_call
-    if settled == "late":
-        # the death is masked by the results that keep arriving and is only handled after call 1 returned
-        # (wait_result_broken_or_wakeup looks at the result pipe first): same as an idle death after call 1
-        m = (["MWithEnter"] if s["managed"] else []) + ok_call + ok_call + ["MKillIdle %d" % j for j in s["victims"]] + ["MMgr 3"]
-    m += ok_call + ok_call
+    un = ["MMask false", "MMgr 3"]
+    if variant == "mask1":
+        m += un + ok_call + ok_call
+    elif variant == "mask2":
+        m += ["MCall %d %d []" % (n, burst), "MMask false", "MRounds %d" % R] + ok_call
+    elif variant == "mask3":
+        m += ok_call + un + ok_call
+    else:
+        m += ok_call + ok_call
     return "show (drive %d %d [%s])" % (nj, 2 * common.NCPU + 1, "; ".join(m))
 
 
@@ -315,14 +346,7 @@ def model_predictions(ctx, scenarios, results):
     genuine race open: idle death not awaited; death at start-up masked by results that keep arriving)"""
     exprs, owner = [], []
     for i, (s, r) in enumerate(zip(scenarios, results)):
-        if s["kind"] == "idle_unsettled":
-            variants = [True, False, "late"]
-        elif s["kind"] in ("startup_gen", "startup_reduce"):
-            variants = [True, "late"]
-        elif s["kind"] == "idle_settled":
-            variants = [bool(r.get("noticed"))]
-        else:
-            variants = [True]
+        variants = variants_for(s, r)
         for v in variants:
             exprs.append(macros(s, v))
             owner.append(i)
